@@ -94,6 +94,7 @@ func sliceAccess() *slice {
 		Call("Fast", TAny), Call("Fast", TAny, TInt), Call("Fast", TAny, TStr, TInt),
 		Call("FnInc", TInt, TInt), Call("Add", TInt, TInt, TInt), Call("Cat", TStr, TStr, TStr), Call("IsNil", TBool, TNil), Call("IsNil", TBool, TObj),
 		Call("Plus", TInt, TInt, TInt), Call("Get", TInt, TInt), // same names as methods of Obj, other arities
+		Call("PickV", TAny, TInt, TInt, TStr), Call("PickV", TAny, TInt),
 		Call("Second", TAny, TInt, TNil), Call("Second", TAny, TNil, TInt), Call("Second", TAny, TStr, TObj), Method(TObj, "Pick", TAny, false, TInt, TNil),
 		Arr(), Arr(TInt), Arr(TInt, TStr), Arr(TObj),
 		MapLit([]string{"a"}, TInt), MapLit([]string{"a", "b"}, TInt, TStr),
@@ -226,7 +227,7 @@ func sliceKinds() *slice {
 	rules := []*Rule{
 		Var("I", TInt), Var("H", TInt), Var("F", TFloat), Var("HF", TFloat), Var("I8", TI8), Var("U8", TU8), Var("I64", TI64), Var("F32", TF32), Var("U", TU),
 		Lit("1", TInt, 1), Lit("2", TInt, 2), Lit("0.5", TFloat, 0.5), Lit("[1, 2]", TIntArr, []int{1, 2}), Lit("[0, 200]", TIntArr, []int{0, 200}),
-		Var("B", TBool), CondMixed(TU8, TInt, TAny), CondMixed(TI8, TFloat, TAny),
+		Var("B", TBool), CondMixed(TU8, TInt, TAny), CondMixed(TI8, TFloat, TAny), Un("not", TBool, TBool),
 	}
 	nums := []Ty{TInt, TFloat, TI8, TU8, TI64, TF32, TU}
 	rank := map[Ty]int{TU: 0, TU8: 1, TInt: 5, TI8: 6, TI64: 9, TF32: 10, TFloat: 11}
